@@ -24,16 +24,17 @@ type nodeOp struct {
 }
 
 type Node struct {
-	idx     int
-	name    string
-	cfg     NodeCfg
-	at      int
-	wantTip int
-	lastAnn int
-	crashed bool
-	offline bool // from-roots partial node not bootstrapped yet
-	dead    bool // could not be re-synchronised; skipped for the rest of the run
-	tainted bool
+	idx       int
+	name      string
+	cfg       NodeCfg
+	at        int
+	wantTip   int
+	lastAnn   int
+	crashed   bool
+	partUntil int64 // partitioned from the source until this simulated time
+	offline   bool  // from-roots partial node not bootstrapped yet
+	dead      bool  // could not be re-synchronised; skipped for the rest of the run
+	tainted   bool
 
 	st  u.Stump
 	acc u.Utreexo
